@@ -315,3 +315,44 @@ def jump_text(stmts, indent=''):
         else:
             raise ValueError(s)
     return out
+
+
+def struct_text(block, indent='', step='    '):
+    """structured abstract program (spec/BareCore.tla, structured statements) -> source lines"""
+    out = []
+    for s in block:
+        k = s['k']
+        if k == 'assign':
+            out.append(f"{indent}{s['name']} = {expr_text(s['e'])}")
+        elif k == 'expr':
+            out.append(indent + expr_text(s['e']))
+        elif k == 'if':
+            for i, arm in enumerate(s['arms']):
+                out.append(f"{indent}{'if' if i == 0 else 'elif'} {expr_text(arm['cond'])}:")
+                out.extend(struct_text(arm['body'], indent + step, step))
+            if s['hasElse']:
+                out.append(indent + 'else:')
+                out.extend(struct_text(s['els'], indent + step, step))
+            out.append(indent + 'endif')
+        elif k == 'while':
+            out.append(f"{indent}while {expr_text(s['cond'])}:")
+            out.extend(struct_text(s['body'], indent + step, step))
+            out.append(indent + 'endwhile')
+        elif k == 'for':
+            out.append(f"{indent}for {s['var']}{(', ' + s['idx']) if s['idx'] else ''} in {expr_text(s['e'])}:")
+            out.extend(struct_text(s['body'], indent + step, step))
+            out.append(indent + 'endfor')
+        elif k == 'break':
+            out.append(indent + 'break')
+        elif k == 'continue':
+            out.append(indent + 'continue')
+        elif k == 'return':
+            out.append(indent + 'return' + ((' ' + expr_text(s['e'])) if s['hasE'] else ''))
+        elif k == 'function':
+            args = ', '.join(s['args']) + ('...' if s['last'] else '')
+            out.append(f"{indent}function {s['name']}({args}):")
+            out.extend(struct_text(s['body'], indent + step, step))
+            out.append(indent + 'endfunction')
+        else:
+            raise ValueError(s)
+    return out
